@@ -516,13 +516,18 @@ def c03(run, args):
     beh += behaviours_from(run, sim, lambda i: [mk], stores, "sim")
     vb = behaviours_from(run, valid, lambda i: [lambda rng: Concretiser(rng, naming="local", policy=POLICIES[0], max_rcpt=3, mixed_verbs=False)],
                          lambda i: ["mem", "file"], "valid")
+    # the same valid dialogues from a client that does not wait for the 354 nor for the answer to the end of the data: DATA, the
+    # message and the line behind it leave in one write (what `nc < session.txt` does); replies and store must be the same
+    pipe = []
+    for b in vb:
+        pipe.append(dict(b, id=b["id"] + "-pipelined", pipeline=True))
     cuts = []
     for b in vb:
         cuts += cut_variants(b, 5 if quick else 1, random.Random(run.seed))
     run.cov["distinct_nontrivial"] += len(cuts)
     run.cov["cut_points"] = len(cuts)
     run.cov["samples"] = [tour[len(tour) // 2], sim[0][:14], {"cut": cuts[len(cuts) // 2]["id"], "prefix": cuts[len(cuts) // 2]["steps"][-1]["send"][-30:]}] if tour and sim and cuts else []
-    replay_and_validate_crashes(run, vh, beh + cuts, "c03", "C03 SMTP sequencing/isolation/atomicity")
+    replay_and_validate_crashes(run, vh, beh + pipe + cuts, "c03", "C03 SMTP sequencing/isolation/atomicity")
     run.cov["rule"] = ("(1) TLC walks every (state, command) edge of the Smtp contract over the full alphabet (valid, out-of-order, malformed, over-long (70 KB), binary lines, AUTH "
                        "PLAIN/LOGIN sub-dialogues, mixed-case verbs by seed), each followed by a delivery that exposes stale envelope/session state; (2) long simulated dialogues; "
                        "(3) TLC-generated valid multi-transaction dialogues cut after byte offsets of the client stream (quick: every command boundary +-2 and every 5th byte; thorough: every byte). "
@@ -564,6 +569,18 @@ def c06(run, args):
 
     stores = (lambda i: ["mem", "file"][(i + run.seed) % 2:][:1]) if quick else (lambda i: ["mem", "file"])
     beh = behaviours_from(run, tour, configs, stores, "size")
+    # a client that does not wait for replies (DATA, the message and the next line in one write), around a refused oversize message
+    M, R = {"c": "mail", "k": "ok", "hook": "none"}, lambda k: {"c": "rcpt", "k": k, "hook": "none"}
+    D, B = {"c": "data", "arg": False}, lambda k: {"c": "body", "k": k}
+    H, Q = {"c": "helo", "verb": "EHLO", "arg": True}, {"c": "quit"}
+    templates = [[H, M, R("a1"), D, B("big"), {"c": "rset"}, M, R("b"), D, B("ok"), Q],
+                 [H, M, R("a1"), D, B("big"), M, R("a1"), D, B("fitlarge"), Q],
+                 [H, M, R("a1"), R("b"), D, B("ok"), M, R("b"), D, B("big"), {"c": "noop"}, M, R("a1"), D, B("ok"), Q]]
+    pb = behaviours_from(run, templates, lambda i: [(lambda rng, lim=lim: Concretiser(rng, naming="local", policy=POLICIES[0], max_rcpt=3, max_bytes=lim)) for lim in (1000, 5000)],
+                         lambda i: ["mem", "file"], "pipelined")
+    for b in pb:
+        b["pipeline"] = True
+    beh += pb
     run.cov["samples"] = [tour[len(tour) // 2]] if tour else []
     replay_and_validate(run, vh, beh, "c06", "C06 maximum message size")
     run.cov["rule"] = ("TLC walks every edge of the Smtp contract restricted to the size-relevant classes (MAIL with SIZE absent / within / = limit / above / unparsable; "
